@@ -35,7 +35,15 @@ Defs == {
   Def("afail", "Then", "regex", "^async fails$"),
   Def("both", "Given", "regex", "^both (\\w+) (\\w+)$"),
   Def("meta", "Given", "literal", "a.b (c)?"),
-  Def("meets", "When", "expr", "a {animal} meets {int} {animal}(s)") }
+  Def("meets", "When", "expr", "a {animal} meets {int} {animal}(s)"),
+  Def("anon", "Then", "expr", "anything {} goes"),                 \* anonymous parameter
+  Def("eatdrink", "Given", "expr", "I eat/drink {int} thing(s)"),  \* alternative text
+  Def("astep", "When", "regex", "^astep (\\d+)$"),                  \* async + typed + #[step] + Result
+  Def("metas", "Then", "literal", "1+1 = 2 | [x] ^$ {int}"),       \* a literal is not an expression
+  Def("twice_lit", "Given", "regex", "^twice$"),                   \* the same fn `twice` under two attributes
+  Def("twice", "Then", "regex", "^twice (\\d+)$"),
+  Def("okres", "Given", "regex", "^okres$"),
+  Def("calc", "When", "expr", "calc \\(x\\) {word}") }              \* escaped parentheses
 
 \* M(fn, text): the matcher of fn matches text; call = what the function records when all
 \* arguments parse; ok = FALSE if an argument fails FromStr or the function returns Err
@@ -71,13 +79,26 @@ Matches == {
   M("both", "both ab cd", "both(both ab cd;ab,cd)", TRUE),
   M("meta", "a.b (c)?", "meta()", TRUE),
   M("meets", "a cat meets 2 dogs", "meets(cat,2,dog)", TRUE),
-  M("meets", "a dog meets 1 cat", "meets(dog,1,cat)", TRUE) }
+  M("meets", "a dog meets 1 cat", "meets(dog,1,cat)", TRUE),
+  M("anon", "anything x y goes", "anon(x y)", TRUE),
+  M("anon", "anything  goes", "anon()", TRUE),               \* {} matches the empty string
+  M("eatdrink", "I eat 2 things", "eatdrink(2)", TRUE),
+  M("eatdrink", "I drink 1 thing", "eatdrink(1)", TRUE),
+  M("astep", "astep 7", "astep(7;astep 7)", TRUE),
+  M("astep", "astep 99999", "", FALSE),                      \* u16 overflow in an async fn
+  M("metas", "1+1 = 2 | [x] ^$ {int}", "metas()", TRUE),
+  M("twice_lit", "twice", "twice()", TRUE),
+  M("twice", "twice 4", "twice(4)", TRUE),
+  M("okres", "okres", "okres()", TRUE),
+  M("calc", "calc (x) y", "calc(y)", TRUE) }
 
 Texts == {m.text : m \in Matches} \cup
   {"a literal step ", "A literal step", "a literal", "eat x apples", "I have x cucumbers",
    "a cow says \"moo\"", "multi", "slice ab", "with step!", "I have 3 cucumberss",
    "axb c", "a.b c", "a.b ", "move up by 3", "price is x", "user bob has 3 apples",
-   "a cat meets 2 cows", "both ab"}
+   "a cat meets 2 cows", "both ab",
+   "anything goes", "I eat/drink 1 thing", "I eats 1 thing", "astep x", "1+1 = 2 | [x] ^$ 3", "11 = 2 | [x] ^$ {int}",
+   "twice x", "okres ", "calc x y", "calc \\(x\\) y"}
 Keywords == {"Given", "When", "Then"}
 
 Dispatch(kw, text) ==
